@@ -248,8 +248,24 @@ class Gen:
             env["listlen"]["l"] = n0
             body0.append(("newnest", "n", self.expr(env, 1, ()), "l"))
             env["nests"]["n"] = [1, n0]
+        shadow_ret = None
+        if "shadowing" in self.feat:
+            # the same local name is defined in caller and callee; in the entry functions its use stays
+            # pending across the calls made by the body
+            body0.append(("assign", "a", self.expr(env, 1, ())))
+            if "a" not in env["ints"]:
+                env["ints"].append("a")
+            if name in ("f", "g") and helpers:
+                h = r.choice(helpers)
+                if not (("o" in h["params"] and not env["objs"]) or ("r" in h["params"] and not (env["lists"] or env["nests"]))):
+                    body0.append(("assign", "b", ("call", h["name"], self.args_for(h, env, 1))))
+                    if "b" not in env["ints"]:
+                        env["ints"].append("b")
+                    shadow_ret = ("bin", "+", ("v", "a"), ("v", "b"))
         body = body0 + self.block(env, n_stmts, 0, helpers, True)
-        if env["nests"] and r.random() < 0.6:
+        if shadow_ret is not None and "a" in env["ints"] and "b" in env["ints"] and r.random() < 0.7:
+            body.append(("return", shadow_ret))
+        elif env["nests"] and r.random() < 0.6:
             nname = r.choice(sorted(env["nests"]))
             i = r.randrange(0, 2)
             ret = ("idx2", nname, i, r.randrange(0, env["nests"][nname][i]))
@@ -261,7 +277,7 @@ class Gen:
         return {"name": name, "params": params, "globals": gdecl, "body": body}
 
 
-ALL_FEATURES = ["branch", "globals", "attrs", "lists", "calls", "early", "alias", "andor", "nested"]
+ALL_FEATURES = ["branch", "globals", "attrs", "lists", "calls", "early", "alias", "andor", "nested", "shadowing"]
 
 
 def gen_case(rng, features=None, size=None):
@@ -271,6 +287,14 @@ def gen_case(rng, features=None, size=None):
     g = Gen(rng, features)
     size = size or rng.choice([2, 3, 5, 7])
     helpers = []
+    if "calls" in features and "shadowing" in features:
+        # recursion (bounded by x < 4): every activation has its own a / c, pending across the inner call
+        helpers.append({"name": "hr", "params": ["x", "y"], "globals": [], "body": [
+            ("assign", "a", ("bin", "+", ("v", "x"), ("v", "y"))),
+            ("if", ("andor", "and", ("cmp", ">", ("v", "x"), ("c", 0)), ("cmp", "<", ("v", "x"), ("c", 4))),
+             [("assign", "c", ("call", "hr", [("bin", "-", ("v", "x"), ("c", 1)), ("v", "y")])),
+              ("return", ("bin", "+", ("v", "a"), ("v", "c")))], []),
+            ("return", ("v", "a"))]})
     if "calls" in features:
         for k in range(rng.randrange(1, 3)):
             params = ["x", "y"] + (["o"] if "attrs" in features and rng.random() < 0.5 else [])
@@ -388,6 +412,14 @@ def render(case):
     box_v = len(r.lines)
     r.emit("        self.w = 1")
     box_w = len(r.lines)
+    r.emit("")
+    r.emit("    def set(self, v):")
+    r.emit("        self.v = v")          # implicit `return None` sits on this line
+    box_set = len(r.lines)
+    r.emit("")
+    r.emit("    def get(self):")
+    r.emit("        return self.v")
+    box_get = len(r.lines)
     flines = {}
     for fn in case["funcs"]:
         r.emit("")
@@ -397,7 +429,8 @@ def render(case):
         if fn["globals"]:
             r.emit(f"    global {', '.join(fn['globals'])}")
         r.block(fn["body"], 1)
-    return "\n".join(r.lines) + "\n", {"stmt": r.lineof, "glob": glines, "box_v": box_v, "box_w": box_w, "func": flines}
+    return "\n".join(r.lines) + "\n", {"stmt": r.lineof, "glob": glines, "box_v": box_v, "box_w": box_w, "box_set": box_set,
+                                        "box_get": box_get, "func": flines}
 
 
 # ------------------------------------------------------------------------------------------------
@@ -622,6 +655,17 @@ def shadow_run(case, lm, nobase=False, noappend=False, nosetidx=False):
         r = sh.call(name, args, frozenset())
         vals.append(r.val)
         deps.append(set(r.dep))
+    # test statements after the entry calls:  none_0 = box.set(c0); var_2 = box.get(); none_1 = box.set(c1)
+    if box is None:
+        b = SBox()
+        b.f["v"] = TV(c2, frozenset({lm["box_v"]}))
+        b.f["w"] = TV(1, frozenset({lm["box_w"]}))
+        box = TV(b, frozenset())
+    box.val.f["v"] = TV(c0, frozenset({lm["box_set"]}))
+    got = box.val.f["v"]
+    vals.append(got.val)
+    deps.append(set(got.dep | {lm["box_get"]}))
+    box.val.f["v"] = TV(c1, frozenset({lm["box_set"]}))
     return {"values": vals, "deps": deps, "executed": sh.executed}
 
 
@@ -813,6 +857,10 @@ def _ground_truth(src, path, case):
         if case["use_box"]:
             extra = [ns["Box"](c2)]
         vals = [ns["f"](c0, c1, *extra), ns["g"](c1, c0, *extra)]
+        bx = extra[0] if extra else ns["Box"](c2)
+        bx.set(c0)
+        vals.append(bx.get())
+        bx.set(c1)
     finally:
         mon.set_events(tool, 0)
         mon.register_callback(tool, mon.events.LINE, None)
@@ -887,6 +935,17 @@ def run_real(case, src, workdir, modname):
                 s_g.assertions.append(ass.ObjectAssertion("var_1", gt["values"][1]))
             t.add_statement(s_f)
             t.add_statement(s_g)
+            roles = {t.size() - 2: 0, t.size() - 1: 1}
+            if not case["use_box"]:
+                t.add_statement(mk(f"int_2 = {c2}", "int_2", int))
+                t.add_statement(mk(f"box_0 = {modname}_.Box(int_2)", "box_0"))
+            # bound None-returning setter calls around a getter: the setter's implicit `return None` shares
+            # its line with the attribute write the getter's value depends on
+            t.add_statement(mk("none_0 = box_0.set(int_0)", "none_0"))
+            t.add_statement(mk("var_2 = box_0.get()", "var_2", int))
+            roles[t.size() - 1] = 2
+            t.add_statement(mk("none_1 = box_0.set(int_1)", "none_1"))
+            rec["roles"] = roles
             REC["phase"] = "execute"
             res = ex.execute(t)
             REC["phase"] = None
